@@ -205,3 +205,48 @@ func Verif_C09_capacity() {
 	verifAssert(as.flying == 0, "in-flight count is zero once every admitted request has reported")
 	verifReach("capacity")
 }
+
+// H09f: a trace of 3 arrivals with symbolic CPU verdicts and symbolic
+// non-decreasing times, starting from a fresh shedder whose in-flight numbers
+// stay above the capacity estimate (so the drop predicate is never masked).
+// The harness itself remembers when an overload was last OBSERVED: a request
+// arriving while CPU is below the threshold and more than one second after
+// that observation must be admitted, whatever was dropped in between.
+func Verif_C09_trace() {
+	verifUseMaxF = true
+	verifMaxF = 1
+	verdict := false
+	old := systemOverloadChecker
+	systemOverloadChecker = func(int64) bool { return verdict }
+	defer func() { systemOverloadChecker = old }()
+	verifClock = time.Duration(verifInt64("t0"))
+	verifAssume(verifClock >= time.Second)
+	verifAssume(verifClock <= 10*time.Second)
+	as := NewAdaptiveShedder(WithBuckets(2), WithWindow(2*time.Second)).(*adaptiveShedder)
+	as.flying = 100
+	as.avgFlying = 100
+	lastObs := time.Duration(0) // 0 = no overload observed yet
+	n := verifParam("arrivals")
+	for i := 0; i < n; i++ {
+		adv := time.Duration(verifInt64("adv"))
+		verifAssume(adv >= 0)
+		verifAssume(adv <= 3*time.Second)
+		verifClock += adv
+		verdict = verifBool("overloaded")
+		if verdict {
+			lastObs = verifClock
+		}
+		calm := !verdict && (lastObs == 0 || verifClock-lastObs >= time.Second)
+		_, err := as.Allow()
+		if calm {
+			verifAssert(err == nil, "never rejects while CPU is below the threshold and no overload was observed during the last second (trace)")
+			verifReach("calm-admitted")
+		}
+		if err != nil {
+			verifAssert(verdict || (lastObs != 0 && verifClock-lastObs < time.Second), "rejects only under overload or within one second of an observed overload (trace)")
+			verifReach("trace-rejected")
+		} else {
+			as.flying = 100 // keep the in-flight numbers above capacity for the next arrival
+		}
+	}
+}
